@@ -8,7 +8,7 @@ into 0 (acos(mpc('nan', 1)) == 0 on the pinned tree).  mpf_pos is the
 special-safe way to round an existing value.  Exactness of perfect powers,
 fast paths at multiples of pi/2 etc. are value questions and are not decided.
 
-Rule B-R7 (sa/guard_bits.py): inside the kernels, an inexact intermediate that is
+Rule B-R9 (sa/guard_bits.py): inside the kernels, an inexact intermediate that is
 rounded at the target precision itself must not be an operand of a computation
 that runs with guard bits (a contradiction inside one region; it is what makes
 root(a**n, n) miss the exact integer when 1/n is rounded at prec).
@@ -89,7 +89,7 @@ def run(run, ix, tier):
         'the unpacked fields of a value under a non-zero-mantissa guard, but never '
         'field-wise to an existing value (which may be inf/nan and would become 0).  '
         'A built-in positive example keeps the detector honest (expected count on a '
-        'healthy tree is zero).  Second clause (B-R7): every (intermediate, consumer) pair of kernel '
+        'healthy tree is zero).  Second clause (B-R9): every (intermediate, consumer) pair of kernel '
         'calls inside the libmp kernels whose precisions are comparable (same symbolic base) is examined; '
         'an intermediate rounded with no guard bits must not feed a consumer that runs with guard bits.')
     run.assumptions = []
@@ -118,15 +118,15 @@ def run(run, ix, tier):
                     else:
                         run.ok('B-R6', '%s:%s %s' % (rel, f.qualname, norm(x, 60)) if n < 8 else None)
     run.stats['normaliser_call_sites'] = n
-    # ---- B-R7 ---------------------------------------------------------------------------
-    run.rule('B-R7', floor=60, desc='intermediate -> consumer precision pairs examined')
+    # ---- B-R9 ---------------------------------------------------------------------------
+    run.rule('B-R9', floor=60, desc='intermediate -> consumer precision pairs examined')
     g = GuardScan()
     g.scan_function(ast.parse(
         'def f(s, n, prec, rnd):\n    prec2 = prec + 10\n    nth = mpf_rdiv_int(1, s, prec)\n'
         '    return mpf_pow(s, nth, prec2, rnd)\n').body[0], 'prec')
     if len(g.findings) != 1:
-        raise AnalysisError('B-R7 detector does not recognise its positive example')
-    check_guard_bits(run, ix, 'B-R7')
+        raise AnalysisError('B-R9 detector does not recognise its positive example')
+    check_guard_bits(run, ix, 'B-R9')
     # ---- B-R8: real-axis delegation of the complex exp/trig family ---------------------------------
     run.rule('B-R8', floor=10, desc='complex exp/trig kernels delegate real-axis arguments to the real kernel')
     for name in AXIS_FAMILY:
